@@ -14,7 +14,7 @@ CHECKS = {
          "8.C03", "map iteration orders reached by permuted construction x repetition (not enumerable from outside the runtime); concurrency sampled by the Go scheduler",
          "TLC trace judge (Pure) over repeated/permuted/concurrent evaluations of the real matcher"),
  "C04": ("Machine.tla defines StepOutcomes, the relation of allowed results of one step (action, error routing, ordered branches, guards, @var targets), over an action language rendered as ECMAScript and as native Go actions; every recorded result of the real Spec.Step (and every stride of recorded walks) must be a member, as judged by TLC.",
-         "8.C04", "seeded generation over node shapes / error settings / states / messages (not yet a TLC-enumerated exhaustive universe); branch patterns restricted to the fragment where the reference matcher is exact; nil-bindings states judged for totality only",
+         "8.C04", "TLC enumerates the universe of node shapes (MC_Step: 9 actions x 2 renderings x 2 branching types x 0..1 branches (quick) / 0..2 (thorough, every 4th exported) x 3 error settings x 3 states x 3 pending) and every exported case is driven; plus seeded generation over a wider vocabulary; branch patterns restricted to the fragment where the reference matcher is exact; nil-bindings states judged for totality only",
          "TLA+ step relation (Machine.tla) + TLC trace judge over recorded Spec.Step/Walk calls"),
  "C05": ("Recorded walks of the real Spec.Walk are judged by TLC: ordered exactly-once consumption (prefix), step bound, exact remainder on limit/breakpoint, stride continuity, quiescence and no discard at a consuming node on Done, truthful breakpoints, every stride in the step relation, and equality of final state and emissions across every split into consecutive batches.",
          "8.C05", "seeded specs with 2-3 nodes, <=4 messages, every split; split equivalence claimed for deterministic walks not stopped by limit/breakpoint",
